@@ -53,7 +53,10 @@ def main():
             return fn_replay(a.pid, a.replay)
         rc = fn_run(a.pid, a.tier)
         if a.tier == "thorough" and rc == 0 and not os.environ.get("VERIF_SKIP_SEEDS") and not os.environ.get("DESERR_REPO"):
-            seeded_selftest(a.pid)
+            try:
+                seeded_selftest(a.pid)
+            except Exception as e:      # the kill table is an extra; it never changes the verdict of the check
+                print("NOTE property=%s seeded self-test not recorded: %s" % (a.pid, e))
         return rc
     except vlib.ToolError as e:
         print("TOOL-ERROR property=%s %s" % (a.pid, e), file=sys.stderr)
